@@ -75,6 +75,11 @@ pub const REQUIRED_PROG: &[&str] = &["GridItem.min_content_contribution", "GridI
 /// attempted; what leaves the fragment is reported in a comment of the generated file
 pub const OPTIONAL_PROG: &[&str] = &[];
 
+/// the pure item-level loops of src/compute/grid/track_sizing.rs (translated and tied: Props/TieGridItem3.lean)
+pub const ITEM_LOOPS: &[&str] = &["determine_if_item_crosses_flexible_or_intrinsic_tracks"];
+/// attempted; what leaves the fragment is reported in a comment of the generated file
+pub const ITEM_LOOPS_OPTIONAL: &[&str] = &[];
+
 pub fn extract(repo: &str, w: &World, reg: &mut Reg) -> Result<String, String> {
     let env = CfgEnv::default_build();
     let file = parse_file(&format!("{repo}/src/compute/grid/types/grid_item.rs"))?;
@@ -94,6 +99,8 @@ pub fn extract(repo: &str, w: &World, reg: &mut Reg) -> Result<String, String> {
             "(Model/SliceOps4.lean): one node per `tree.measure_child_size(…)` call with exactly the source's arguments, in the Rust order; a `&mut self`",
             "method answers `(self, value)`; `o.unwrap_or_else(|| { …; v })` is `match o with | some v => v | none => (…; v)` (the closure's assignments to",
             "`self` — the cache fields — happen in the `none` arm only); `o.or_else(|| e)` is `if o.isSome then o else e`.",
+            "`determine_if_item_crosses_flexible_or_intrinsic_tracks` (track_sizing.rs): `for item in items` is `List.mapM` over the items,",
+            "`range.any(|i| columns[i].p())` is `Slice.rangeAnyM` (front to back, stops at the first `true`; `columns[i]` is `Slice.index`, panics out of range).",
         ],
     );
     // ---- the struct
@@ -229,6 +236,19 @@ pub fn extract(repo: &str, w: &World, reg: &mut Reg) -> Result<String, String> {
             Err(e) => acc.fail(rel, required, e),
         }
     }
-    let all: Vec<&str> = REQUIRED.iter().chain(REQUIRED_PROG.iter()).chain(["AbstractAxis.as_abs_naive"].iter()).cloned().collect();
+    // ---- track_sizing.rs: the pure item-level loops
+    let ts = parse_file(&format!("{repo}/src/compute/grid/track_sizing.rs"))?;
+    for name in ITEM_LOOPS_OPTIONAL.iter().chain(ITEM_LOOPS.iter()) {
+        let req = ITEM_LOOPS.contains(name);
+        let f = ts.items.iter().find_map(|it| match it {
+            Item::Fn(f) if f.sig.ident == name && env.enabled(&f.attrs).unwrap_or(false) => Some(f),
+            _ => None,
+        });
+        match f {
+            Some(f) => acc.function(w, reg, "", &ident(name), None, &no, &f.sig, &f.block, req),
+            None => acc.fail(name, req, "not found in the source".into()),
+        }
+    }
+    let all: Vec<&str> = REQUIRED.iter().chain(REQUIRED_PROG.iter()).chain(["AbstractAxis.as_abs_naive"].iter()).chain(ITEM_LOOPS.iter()).cloned().collect();
     acc.finish(&all)
 }
